@@ -8,6 +8,7 @@ from ..core import Ctx, Outcome, Violation
 
 ID = "C04"
 LEVEL = "proof"
+EXTRA_TARGETS = ["MG.DriverEng"]
 THEOREMS = {
     "MG.Proofs.C04": [
         "MG.C04.view_positions_eq_gather",
